@@ -391,7 +391,7 @@ def sweep_words(t):
     return res
 
 
-def pipeline_words(ctx, ts):
+def word_cases(ctx, ts):
     """'<next|last|this word> <week|month|year noun>' of every culture whose configuration holds the three prefix regexes,
     through recognize_datetime.  The property (C08) states the period containing R shifted by +1 / -1 / 0.  Reported only
     when the whole expression IS recognised as one date range and its value is the property's value for a DIFFERENT
@@ -422,9 +422,11 @@ def pipeline_words(ctx, ts):
             for fam, noun in nouns:
                 for R in refs:
                     cases.append(('%s %s' % (w, noun), R, fam, k, t['culture'], w))
-    if not cases:
-        return
-    results = calcorr.run_pipeline([((c[0], c[4]), c[1]) for c in cases])
+    return cases
+
+
+def judge_words(ctx, cases, results):
+    from lib import calcorr
     name = {1: 'next', -1: 'last', 0: 'this'}
     reported = {}
     for (expr, R, fam, k, cul, w), res in zip(cases, results):
@@ -454,10 +456,72 @@ def pipeline_words(ctx, ts):
     ctx.extra['cultureconfig_word_sweep'] = {'cases': len(cases), 'signatures': reported}
 
 
+# the culture's own words for today / tomorrow / yesterday / … (the same tables as `specialDays*` in Props/C08Config.lean:
+# they are the specification, written by hand)
+SPECIAL_DAYS = {
+    'en-us': [('today', 0), ('tomorrow', 1), ('tmr', 1), ('yesterday', -1), ('day after tomorrow', 2), ('the day after tomorrow', 2),
+              ('day before yesterday', -2), ('the day before yesterday', -2), ('the day after', 1), ('the day before', -1),
+              ('next day', 1), ('the next day', 1), ('last day', -1), ('the last day', -1), ('the following day', 1),
+              ('previous day', -1)],
+    'es-es': [('hoy', 0), ('mañana', 1), ('ayer', -1), ('pasado mañana', 2), ('anteayer', -2), ('el día de mañana', 1),
+              ('el día siguiente', 1), ('el último día', -1)],
+    'fr-fr': [("aujourd'hui", 0), ('demain', 1), ('hier', -1), ('après-demain', 2), ('après demain', 2), ('avant-hier', -2),
+              ('avant hier', -2), ('lendemain', 1), ('le jour suivant', 1)],
+    'pt-br': [('hoje', 0), ('amanhã', 1), ('amanha', 1), ('ontem', -1), ('depois de amanhã', 2), ('anteontem', -2),
+              ('o dia seguinte', 1), ('último dia', -1)],
+    'it-it': [('oggi', 0), ('domani', 1), ('ieri', -1), ('dopodomani', 2), ("l'altro ieri", -2), ('il giorno dopo', 1),
+              ('il giorno prima', -1)],
+    'de-de': [('heute', 0), ('morgen', 1), ('gestern', -1), ('übermorgen', 2), ('vorgestern', -2), ('der tag danach', 1),
+              ('der tag zuvor', -1)],
+    'nl-nl': [('vandaag', 0), ('morgen', 1), ('gisteren', -1), ('overmorgen', 2), ('eergisteren', -2), ('de dag na', 1),
+              ('de dag ervoor', -1)],
+    'zh-cn': [('今天', 0), ('今日', 0), ('明天', 1), ('明日', 1), ('昨天', -1), ('昨日', -1), ('后天', 2), ('後天', 2), ('前天', -2),
+              ('大后天', 3), ('大後天', 3), ('大前天', -3)],
+}
+
+
+def special_cases(ctx):
+    """the words of SPECIAL_DAYS alone as a query: when the pipeline recognises the whole word as ONE date, the date is the
+    reference date + k (C08: today / tomorrow / yesterday …); an unrecognised word or another reading is not judged."""
+    from lib import calcorr
+    r = ctx.rng('cultureconfig-special')
+    cases = []
+    for cul, rows in sorted(SPECIAL_DAYS.items()):
+        for w, k in rows:
+            for R in (SWEEP_REFS if ctx.thorough else [SWEEP_REFS[0], r.choice(SWEEP_REFS[1:])]):
+                cases.append((w, R, k, cul))
+    return cases
+
+
+def judge_special(ctx, cases, results):
+    from lib import calcorr
+    for (w, R, k, cul), res in zip(cases, results):
+        ctx.count('pipeline-special-days:%s' % cul)
+        ent = calcorr.whole_entity(res, w)
+        if not ent or ent[3].split('.')[-1] != 'date':
+            continue
+        got = [{kk: v for kk, v in x.items() if kk != 'Mod'} for x in ent[4]]
+        want = calcorr.c08_oracle('special', k, R)
+        if got == want:
+            ctx.nontriv(('cc-special', cul, w, str(R)))
+            continue
+        if not any(got == calcorr.c08_oracle('special', k2, R) for k2 in range(-4, 5)):
+            continue                # another reading (a range, two candidates): not judged here
+        ctx.report('property', 'special-day-%s' % cul,
+                   '%r (%s) at %s: got %r, the property states %r (reference date %+d days)' % (w, cul, R, got, want, k),
+                   failing_input={'op': 'recognize_datetime', 'query': w, 'culture': cul,
+                                  'reference': R.strftime('%Y-%m-%d %H:%M:%S'), 'family': 'special', 'params': k,
+                                  'implementation': got, 'property_expects': want}, property_fails=True)
+
+
 def run(ctx):
     """called from corr/c08.py"""
+    from lib import calcorr
     ts = unit(ctx)
-    pipeline_words(ctx, ts)
+    wc, sc = word_cases(ctx, ts), special_cases(ctx)
+    results = calcorr.run_pipeline([((c[0], c[4]), c[1]) for c in wc] + [((c[0], c[3]), c[1]) for c in sc])   # one pool
+    judge_words(ctx, wc, results[:len(wc)])
+    judge_special(ctx, sc, results[len(wc):])
 
 
 # ------------------------------------------------------------------ baseline of term values + search
